@@ -103,6 +103,25 @@ Theorem c21_clear_frame : forall c s n s' o,
 Proof. exact clear_touches_only_recv_slot. Qed.
 Print Assumptions c21_clear_frame.
 
+(* "Handed to the application" means that Recv RETURNED the message.  A Recv
+   call whose context is cancelled (before the call, while it waits, at any
+   point) ends with an error WITHOUT touching the tracker, and an iteration
+   that does not return a message changes nothing: only a Recv that returns m
+   marks m as processed, so only then is m acknowledged (c21_ack counts
+   exactly these returns). *)
+Theorem c21_recv_cancel_frame : forall c s j s' o,
+  step c s (ARecvCancel j) = Some (s', o) ->
+  tk s' = tk s /\ sends s' = sends s /\ o = [ORecvDone j None (t_open (tk s))].
+Proof. exact recv_cancel_frame. Qed.
+Print Assumptions c21_recv_cancel_frame.
+
+Theorem c21_recv_iter_frame : forall c s j s' o,
+  step c s (ARecvIter j) = Some (s', o) ->
+  (exists m, o = [ORecvDone j (Some m) (t_open (tk s))] /\ t_recv (tk s) = Some m) \/
+  (o = [] /\ tk s' = tk s /\ sends s' = sends s).
+Proof. exact recv_iter_frame. Qed.
+Print Assumptions c21_recv_iter_frame.
+
 (* non-vacuity: a Send that succeeds, a later ack for the old number that does
    nothing to the next message, and a clear that only removes the message it names *)
 Definition ex21 := mkCfg 0 1.
